@@ -49,8 +49,18 @@ let () =
       let cfg = { autosave = (asv = "1"); autogc = (agc = "1") } in
       let st = ref store_empty in
       let buf = Buffer.create 256 in
+      (* Go's map iteration orders are not controllable: the model is run with
+         pseudo-random orders (seeded by the case id); what is compared is independent
+         of them (theorems for index.json / reopening; generator restrictions for the
+         AutoGC cascade and the referrer pass of GC) *)
+      let rs = ref (Hashtbl.hash id) in
+      let rnd () = rs := (!rs * 1103515245 + 12345) land 0x3fffffff; (!rs lsr 8) land 0xffff in
+      let rlist k = List.init k (fun _ -> nat_of_int (rnd () mod 13)) in
+      let orders () =
+        { o_save1 = rlist 10; o_save2 = rlist 10; o_gc1 = rlist 10; o_gc2 = rlist 10;
+          o_del = List.init 8 (fun _ -> (rlist 5, rlist 5)) } in
       let do_op o =
-        let (s', r) = step nn mf succs subj sk fix_f2 fix_a cfg !st (o, ord0) in
+        let (s', r) = step nn mf succs subj sk fix_f2 fix_a cfg !st (o, orders ()) in
         st := s'; Buffer.add_string buf (" " ^ show_result r) in
       let obs s =
         let b = Buffer.create 128 in
